@@ -2347,6 +2347,7 @@ impl VectorEngine {
             .collect();
 
         let count = keys.len();
+        self.invalidate_hnsw_cache("_default");
         for key in keys {
             self.store.delete(&key)?;
         }
